@@ -1227,9 +1227,10 @@ static void confirmed_add(std::string const &k)
 }
 
 static const char *SEP = " ## ";
-static std::string raw_sig(std::string const &label, std::string const &kind, std::string const &func)
+static std::string raw_sig(std::string const &label, std::string const &kind, std::string const &func, bool q = true)
 {
-  return label + SEP + kind + SEP + func;
+  // q: the case belongs to the quick tier's selection as well (preferred when naming a finding)
+  return label + SEP + kind + SEP + func + SEP + (q ? "Q" : "T");
 }
 // order of value classes used to name a finding after its simplest trigger
 static int vclass_rank(std::string const &label)
@@ -1252,7 +1253,7 @@ static int vclass_rank(std::string const &label)
 // signature, named after the simplest keyword/value that triggers it; the others are listed in the detail.
 static void group_findings(Result &total)
 {
-  struct G { long count = 0; std::map<std::string, long> labels; };
+  struct G { long count = 0; std::map<std::string, long> labels; std::set<std::string> qlabels; };
   std::map<std::string, G> groups;
   std::map<std::string, std::string> key_of_raw;
   std::set<std::string> singles;  // "kind@objecttype:keyword" of single-keyword cases
@@ -1267,7 +1268,10 @@ static void group_findings(Result &total)
     std::string raw = kv.first;
     size_t a = raw.find(SEP), b = raw.find(SEP, a + 4);
     if (a == std::string::npos || b == std::string::npos) { groups[raw].count += kv.second; key_of_raw[raw] = raw; continue; }
-    std::string label = raw.substr(0, a), kind = raw.substr(a + 4, b - a - 4), func = raw.substr(b + 4);
+    size_t c3 = raw.find(SEP, b + 4);
+    std::string label = raw.substr(0, a), kind = raw.substr(a + 4, b - a - 4),
+                func = raw.substr(b + 4, c3 == std::string::npos ? std::string::npos : c3 - b - 4);
+    bool inq = c3 == std::string::npos || raw.substr(c3 + 4) == "Q";
     std::string key;
     if (func.size()) key = kind + "@" + func;
     else if (kind == "seq:survivor-deactivated")
@@ -1308,6 +1312,7 @@ static void group_findings(Result &total)
     else key = kind + "@?" + label.substr(0, label.find(':'));
     groups[key].count += kv.second;
     groups[key].labels[label] += kv.second;
+    if (inq) groups[key].qlabels.insert(label);
     key_of_raw[raw] = key;
   }
   std::map<std::string, long> nc;
@@ -1328,6 +1333,8 @@ static void group_findings(Result &total)
       return 100000 * pairs + (named ? 0 : 1000) + (vclass_rank(lab) % 100);
     };
     for (auto const &l : g.second.labels) {
+      // labels of cases the quick tier runs too come first (same name for the same site in both tiers)
+      if (g.second.qlabels.size() && !g.second.qlabels.count(l.first)) continue;
       if (best.empty()) { best = l.first; continue; }
       int r1 = score(l.first), r0 = score(best);
       if (r1 < r0 || (r1 == r0 && l.first < best)) best = l.first;
@@ -1540,9 +1547,11 @@ int main(int argc, char **argv)
     total.count("object_types", (long) ctxs.size());
     total.count("object_type_keywords", (long) ctxkw.size());
   }
-  // quick tier: a case is run once per (object-type chain, keys present in the block, keyword, value class);
-  // the thorough tier runs every case of every base
-  {
+  // selection of the cases a tier runs (rules in the comments below).  The thorough tier also computes the
+  // quick tier's selection: a finding is named after a case the quick tier runs too whenever there is one, so
+  // that both tiers give the same signature to the same crash site.
+  std::set<std::string> QUICK_IDS;
+  auto select_cases = [&](bool thorough_rule, std::vector<Case> &keep) {
     // number of object types whose registry holds a keyword (shared component keywords: name, componentCoeff, ...)
     std::map<std::string, std::set<std::string>> kw_types;
     for (auto const &b : BASES)
@@ -1550,14 +1559,14 @@ int main(int argc, char **argv)
         for (auto const &k : kv.second) kw_types[k].insert(ctx_label(b, kv.first));
     std::map<std::string, std::set<std::string>> shared_taken;
     std::set<std::string> seen;
-    std::vector<Case> keep;
     static const std::set<std::string> cross_classes = {"0", "-1", "1000000", "nan"};
     for (auto const &c : cases) {
       Mut const &m = c.muts[0];
       Node &t = BASES[c.base].tree;
       std::string const ctxl = ctx_label(BASES[c.base], m.ctx);
       bool take = false;
-      if (thorough) {
+      if (!thorough_rule && std::find(VCLASS_MORE.begin(), VCLASS_MORE.end(), m.vclass) != VCLASS_MORE.end()) continue;
+      if (thorough_rule) {
         std::string kv = m.kw + "=" + m.vclass;
         bool more = std::find(VCLASS_MORE.begin(), VCLASS_MORE.end(), m.vclass) != VCLASS_MORE.end();
         bool blocky_absent = m.kid < 0 && BLOCK_KEYS.count(m.kw);
@@ -1620,6 +1629,18 @@ int main(int argc, char **argv)
       }
       if (take) keep.push_back(c);
     }
+  };
+  {
+    std::vector<Case> keep, quick_keep;
+    select_cases(thorough, keep);
+    if (thorough) {
+      select_cases(false, quick_keep);
+      for (auto const &c : quick_keep) QUICK_IDS.insert(case_id(c));
+      size_t both = 0;
+      for (auto const &c : keep) both += QUICK_IDS.count(case_id(c));
+      total.count("quick_tier_cases_contained_in_this_run", (long) both);
+      total.count("quick_tier_cases", (long) quick_keep.size());
+    }
     total.count("cases_deduplicated_away", (long) (cases.size() - keep.size()));
     all_cases = cases;
     cases.swap(keep);
@@ -1667,10 +1688,11 @@ int main(int argc, char **argv)
         r.count(phase + "_cases");
         r.count("transitions", 8);
         std::string lab = case_label(c);
+        bool const inq = !thorough || (phase == "phase1" && QUICK_IDS.count(case_id(c)));
         if (o.kind == "ok") {
           Rep rep = parse_rep(o.out);
           if (!rep.ok) {
-            r.violation(raw_sig(lab, "child-report-missing", ""), detail_json(c, conf, o, NULL));
+            r.violation(raw_sig(lab, "child-report-missing", "", inq), detail_json(c, conf, o, NULL));
             continue;
           }
           bool rejected = rep.rc != 0;
@@ -1714,7 +1736,7 @@ int main(int argc, char **argv)
           r.count("abnormal_ends");
           r.count("abnormal_ends_at_confirmed_site_not_replayed");
           r.seen("outcomes", "abnormal:" + o.kind);
-          r.violation(raw_sig(lab, o.kind, o.func), detail_json(c, conf, o, NULL));
+          r.violation(raw_sig(lab, o.kind, o.func, inq), detail_json(c, conf, o, NULL));
           continue;
         }
         if (o.kind == "timeout" || o.kind == "rss-cap") {
@@ -1726,7 +1748,7 @@ int main(int argc, char **argv)
             r.count("abnormal_ends");
             r.count("abnormal_ends_at_confirmed_site_not_replayed");
             r.seen("outcomes", "abnormal:" + o.kind);
-            r.violation(raw_sig(lab, o.kind, ""), detail_json(c, conf, o, NULL));
+            r.violation(raw_sig(lab, o.kind, "", inq), detail_json(c, conf, o, NULL));
             continue;
           }
         }
@@ -1766,7 +1788,7 @@ int main(int argc, char **argv)
         r.count("abnormal_ends");
         r.seen("outcomes", "abnormal:" + o2.kind);
         if (o2.kind == "timeout" || o2.kind == "rss-cap") confirmed_add(o2.kind + "|" + lab);
-        r.violation(raw_sig(lab, o2.kind, o2.func), detail_json(c, conf, o2, &o));
+        r.violation(raw_sig(lab, o2.kind, o2.func, inq), detail_json(c, conf, o2, &o));
       }
     }, res, 7000);
   };
@@ -2021,10 +2043,10 @@ int main(int argc, char **argv)
           if (o2.kind == "ok") { r.count("abnormal_not_reproduced"); continue; }
           r.count("seq_abnormal_ends");
           r.seen("nontrivial", "seq|" + A.name + "|" + case_id(c));
-          r.violation(raw_sig(lab, o2.kind, o2.func), det(o2.kind));
+          r.violation(raw_sig(lab, o2.kind, o2.func, !thorough), det(o2.kind));
           continue;
         }
-        if (verdict.empty()) { r.violation(raw_sig(lab, "seq:child-report-missing", ""), det("no verdict")); continue; }
+        if (verdict.empty()) { r.violation(raw_sig(lab, "seq:child-report-missing", "", !thorough), det("no verdict")); continue; }
         r.count("seq_" + verdict.substr(0, verdict.find(' ')));
         if (verdict == "harness-A-failed" || verdict == "harness-C-failed")
           harness_error("sequence configuration A/C not accepted: " + A.name);
@@ -2039,7 +2061,7 @@ int main(int argc, char **argv)
           continue;
         }
         std::string what = verdict.substr(0, verdict.find(' '));
-        r.violation(raw_sig(lab, "seq:" + what, ""), det(verdict));
+        r.violation(raw_sig(lab, "seq:" + what, "", !thorough), det(verdict));
       }
     }, r3, 7000);
     if (!ok) return 2;
